@@ -75,7 +75,8 @@ def build(case):
 
 
 def make_plane(case, amp, opd, mask):
-    kw = dict(amplitude=amp.copy(), opd=opd.copy(), mask=None if mask is None else mask.copy(),
+    lay = ["C", "F", "strided", "transposed_view"][case["seed"] % 4]
+    kw = dict(amplitude=gen.relayout(amp.copy(), lay), opd=gen.relayout(opd.copy(), lay), mask=None if mask is None else mask.copy(),
               pixelscale=case["pixelscale"])
     return lentil.Pupil(focal_length=10.0, **kw) if case["cls"] == "Pupil" else lentil.Plane(**kw)
 
